@@ -33,6 +33,15 @@ CLAIMED = {
          "TLC decides ChunkFree/NoPhantom/Progress/Terminates for every delivery choice up to MaxCalls non-full deliveries (and shows the single-Read deviation violates them); the patterns are placed at every call position (first 24/64 calls) of every unbuffered entry point (exif2.Parse, DecodePng, ScanPngHeader, PreviewCR3, imagetype.Scan/ReadAt, ScanTiffHeader and ScanJPEG on raw readers, ParseXmp) and sampled on buffered ones, plus 10 global schedules, over generated files in every container, their truncations and the repository samples.",
          "Trusted: the scripted reader (ops/worker.go), TLC. Not exhaustive over schedules: patterns of <= MaxCalls (2 quick / 4 thorough) consecutive short deliveries; inputs are a seeded sample.",
          "DESIGN.md section 4 C08"),
+
+ "C01": ("TLA+ spec Fault (input grammar with malformation operators on field roles + truncation/fault environment; guarded reader design vs. the named deviations `unchecked` and `trusting`) model-checked by TLC; every emitted (malformation plan, truncation, fault kind) applied to the field maps of generated files in every container (incl. an all-tags payload) and run on every corresponding public entry point in isolated workers; plus every truncation point of the unmutated files, seeded cuts/mutations of the repository samples, random bytes and long-token XMP packets; oracle: the call returns",
+         "TLC decides NoOOB/NoStall/NoBlowup/Returns for the guarded design over every plan of <= MaxMal boundary-value rewrites x {no cut, cut before / +1 / at last byte of a field role} x {EOF, error} and shows both deviations violate them; ~400k calls per quick run over Decode/DecodeTiff/DecodeCR2/DecodeHeif/DecodeJPEG/DecodePng/DecodeCR3/PreviewCR3/Parse/ScanJPEG/ScanTiffHeader/ScanPngHeader/isobmff.Reader/ParseXmp/imagetype.* must return (no recovered panic, no dead worker, no watchdog kill).",
+         "Trusted: the field mappers (gen/fieldmap.go), the worker isolation. Not exhaustive over byte strings: structure-aware boundary classes on the generator's own files + seeded random/mutated inputs; inputs <= 128 KiB.",
+         "DESIGN.md section 4 C01"),
+ "C02": ("Same TLA+ spec Fault (NoStall: no file-driven loop iteration without consumption; Returns under fairness) + Jpeg/TiffScan Progress properties; the same corpus as C01 replayed through a counting io.ReadSeeker: bytes requested <= 4*len+64KiB, no call killed by the progress watchdog, hook-event stall detection (2M events)",
+         "For every generated malformation/truncation case and sample: the entry point returns within the watchdog and the sum of Read request sizes stays within 4*len+64KiB; the model shows a `trusting` reader (size/count 0 drives a loop) violates NoStall.",
+         "Trusted: the counting reader. Watchdog = 8 s without a result from the worker (generous: normal calls take microseconds).",
+         "DESIGN.md section 4 C02"),
 }
 NOT_APPLICABLE = {
  "C18": "Bit-for-bit equality of AVX and Go float32 DCT kernels and their error bound against the real DCT-II are IEEE-754 statements over 2^(32*64) inputs; TLA+/TLC has no floating point and the kernels have no state machine to specify (DESIGN.md section 5).",
